@@ -1,4 +1,5 @@
 CONSTANTS
+  Devs = {}
   Groups = {"data", "open", "ns", "pipe"}
   Drivers = {"iour", "poll", "iour_blk"}
   MaxOps = 1
@@ -24,4 +25,4 @@ CONSTANTS
   PVWBufs <- PVW_Wide
   PVRBufs <- PVR_Wide
 SPECIFICATION GSpec
-INVARIANTS PathsAgreeModuloKnown Sanity Emit
+INVARIANTS PathsAgree Sanity Emit
